@@ -29,7 +29,10 @@ STRS = ["", "a", "ab", "abc", "abcd", "x_1", "a_id", "k1", "Zz", "été", "x", "
 INTS = [-3, -1, 0, 1, 2, 3, 4, 5, 6, 8, 10, 12]
 FLOATS = [0.5, 1.0, 2.5, -1.5, 3.0, 4.0, 0.0]
 # rarely: numbers at the edges of the float/int/bool zoo
-EDGE_NUMBERS = [-0.0, 1e308, -1e308, 5e-324, float("nan"), 2 ** 53 + 1, -(2 ** 63), 10 ** 40]
+# (no NaN: whether two NaNs are "the same item" depends on object identity,
+# which differs between a value built in-process and one that travelled through
+# pickle to a reference process - a transport artefact, not library behaviour)
+EDGE_NUMBERS = [-0.0, 1e308, -1e308, 5e-324, 2 ** 53 + 1, -(2 ** 63), 10 ** 40]
 PATTERNS = [
     ("^x", ["x", "x_1", "xk"]),
     ("_id$", ["a_id", "x_id"]),
